@@ -31,6 +31,25 @@ def scenarios(tier, rng):
     }
     out = []
     k = 0
+    # data decrypted before the thread exists; activation performed by the thread itself with the whole finalisation and
+    # the first bitmaps in one TLS record
+    specials = {
+        "preload": {"preload": [["ctl", "errinfo"], ["bmp", 1]], "steps": [{"observe": 1}, {"rec": [["bmp", 2]]}]},
+        "preload_only": {"preload": [["ctl", "errinfo"], ["bmp", 1]], "steps": [{"observe": 1}, {"pause": 100}]},
+        "late_activation": {"late_activation": True, "steps": [{"rec": [["ctl", "da"]]}, {"rec": [["ctl", "sync"], ["ctl", "coop"], ["ctl", "granted"], ["ctl", "fontmap"], ["bmp", 1], ["bmp", 2]]}, {"rec": [["bmp", 3]]}]},
+        "reactivation": {"steps": [{"rec": [["bmp", 1]]}, {"rec": [["ctl", "deact"], ["ctl", "da"]], "nowait": True}, {"pause": 200},
+                                   {"rec": [["ctl", "sync"], ["ctl", "coop"], ["ctl", "granted"], ["ctl", "fontmap"], ["bmp", 2]]}]},
+    }
+    for pn, sp in specials.items():
+        if pn == "reactivation":
+            continue        # a demand-active in the same record as the deactivate-all is outside the class the client handles (see Activation.tla)
+        for m in ("ultimatum", "abrupt"):
+            st = json.loads(json.dumps(sp["steps"])) + [{"end": m}]
+            sc = {"id": "sp%d" % k, "pack": pn, "mode": m, "input": 0, "steps": st}
+            for key in ("preload", "late_activation"):
+                if key in sp:
+                    sc[key] = sp[key]
+            out.append(sc); k += 1
     for pn, steps in packs.items():
         for m in MODES:
             for inp in ([0] if tier == "quick" and pn not in ("two_in_one", "mixed") else [0, 5]):
